@@ -12,7 +12,7 @@ PROPS = {
                 kani=['method_try_from_exact', 'version_try_from_exact', 'find_first_match', 'uri_abs_path_all'],
                 title='No input makes any parsing entry point panic, hang or block'),
     'C04': dict(units=['conn', 'lemmas', 'client'], kani=[], title='Payload and line-length limits are enforced exactly and before buffering'),
-    'C05': dict(units=['response'], kani=['status_code_raw', 'mediatype_as_str', 'header_raw_names', 'deprecation_header_line', 'allow_header_line'],
+    'C05': dict(units=['response'], kani=['status_code_raw', 'mediatype_as_str', 'header_raw_names', 'status_line_bytes', 'write_body_bytes', 'deprecation_header_line', 'allow_header_line'],
                 title='Serialized responses are well-formed and self-delimiting'),
     'C06': dict(units=['conn'], kani=[], title='Queued responses reach the stream completely, once, in order'),
     'C07': dict(units=['client'], kani=[], title='A response is delivered only to the connection that sent its request'),
